@@ -131,7 +131,7 @@ theorem cleanupOutcome_kept {st st' : Group} {now : Nat} (ho : cleanupOutcome st
 
 /-- a cleanup pass that removed somebody leaves a freshly rebalancing group -/
 theorem cleanupOutcome_rebalanced {st st' : Group} {now : Nat} (ho : cleanupOutcome st now = .rebalanced st') :
-    ∃ st2 : Group, st2.members ≠ [] ∧ st' = st2.startRebalance 0 now ∧
+    ∃ st2 : Group, st2.members ≠ [] ∧ st' = st2.startRebalance 0 now ∧ (st2.gen = st.gen ∧ st2.rebTimeout = st.rebTimeout) ∧
       st2.members = st.members.filter (fun e => !expired now e.2 &&
         !(!(decide (st.deadline = 0) || decide (now < st.deadline)) && (e.2.joinGen != st.gen))) := by
   unfold cleanupOutcome at ho
@@ -141,7 +141,9 @@ theorem cleanupOutcome_rebalanced {st st' : Group} {now : Nat} (ho : cleanupOutc
   · rename_i hemp
     split at ho
     · cases ho
-      refine ⟨_, by intro hh; simp [hh] at hemp, rfl, ?_⟩
+      refine ⟨_, by intro hh; simp [hh] at hemp, rfl, ?_, ?_⟩
+      · unfold removeExpired dropLaggers
+        split <;> exact ⟨rfl, rfl⟩
       unfold removeExpired dropLaggers
       simp only [dropMembers_deadline, dropMembers_gen]
       by_cases h : st.deadline = 0 ∨ now < st.deadline
